@@ -21,6 +21,9 @@ Plan gen_c36(sk::Rng& r, Tier) {
     gen_w4_knobs(p, r);
     p.knobs["preempt"] = r.pick<std::int64_t>({128, 512, 900});
     p.knobs["rotation"] = r.pick<std::int64_t>({1, 2, 5, 3600});
+    // long preemptions: a daemon thread loses the processor for up to 1.5 s at an arbitrary scheduling point, so that periodic work
+    // (the tick) lands in the middle of whatever another thread was doing
+    p.knobs["deschedule"] = r.pick<std::int64_t>({0, 60, 200, 600});
     p.knobs["peers"] = r.range(1, 3);
     p.knobs["control_clients"] = r.range(1, 2);
     p.knobs["steps"] = r.range(3, 8);
@@ -107,10 +110,14 @@ void exec_c36(const Plan& p, Ctx& ctx) {
         a.start("peer" + std::to_string(k), sk::ip(10, 0, 9, static_cast<std::uint8_t>(40 + k)));
         tickets.push_back(a.post([&, k] {
             sk::Rng g(mix + 500 + static_cast<std::uint64_t>(k));
-            const PeerIdentity me = PeerIdentity::make(static_cast<std::uint8_t>(0x90 + k), 2000003u + static_cast<std::uint32_t>(k) * 7919u + static_cast<std::uint32_t>(mix % 1000));
+            PeerIdentity me = PeerIdentity::make(static_cast<std::uint8_t>(0x90 + k), 2000003u + static_cast<std::uint32_t>(k) * 7919u + static_cast<std::uint32_t>(mix % 1000));
             PeerConn c;
             bool up = false;
+            int incarnation = 0;
             for (int i = 0; i < steps; ++i) {
+                // half of the reconnections come from a peer the daemon has never seen (a new entry in its key, reputation and handshake tables)
+                if (!up && incarnation > 0 && g.chance(1, 2)) { me = PeerIdentity::make(static_cast<std::uint8_t>(0x90 + k + 8 * incarnation), 2000003u + static_cast<std::uint32_t>(k + 8 * incarnation) * 7919u + static_cast<std::uint32_t>(mix % 1000)); ctx.probe("peer_new_identity"); }
+                if (!up) ++incarnation;
                 if (!up) { c = PeerConn{}; up = scripted_handshake(c, me, daemon_id, daemon_pub, hs_bits, host, d.transport_port, 8000); ctx.probe(up ? "peer_handshake_ok" : "peer_handshake_failed"); if (!up) { c.close_now(); sk::sleep_ns(500 * kMs); continue; } }
                 const auto act = g.below(6);
                 pr::Message m{};
@@ -165,8 +172,9 @@ Scenario make_c36() {
     s.stub_components = {"OS seams; pthread mutexes are modelled and annotated with __tsan_acquire/__tsan_release; thread create/join annotated", "clients and peers are scripted (uninstrumented)"};
     s.assumptions = {"accesses inside libstdc++.so and the uninstrumented harness are invisible to TSan: races there are missed, never mis-reported",
                      "reports whose location is thread-local storage are ignored: fibers share one OS thread's TLS, which real threads would not"};
-    s.rule = "plan = network/scheduler knobs, key rotation interval, 1..3 transport peers, 1..2 control clients, 3..8 actions each, action mix seed, shutdown after or in the middle of the traffic (SIGTERM or control STOP); non-trivial = every run (concurrent control + transport + tick); distinct = plan hash";
-    s.gen = gen_c36; s.exec = exec_c36; s.kernel_knobs = w4_knobs;
+    s.rule = "plan = network/scheduler knobs, key rotation interval, 1..3 transport peers, 1..2 control clients, 3..8 actions each, action mix seed, long preemptions of arbitrary threads, shutdown after or in the middle of the traffic (SIGTERM or control STOP); non-trivial = every run (concurrent control + transport + tick); distinct = plan hash";
+    s.gen = gen_c36; s.exec = exec_c36;
+    s.kernel_knobs = [](const Plan& p) { sk::Knobs k = w4_knobs(p); k.deschedule_per_65536 = static_cast<std::uint32_t>(p.knob("deschedule", 0)); return k; };
     s.quick_runs = 1200; s.thorough_runs = 30000; s.quick_secs = 55; s.thorough_secs = 1200;
     return s;
 }
